@@ -6,6 +6,7 @@ package main
 import (
 	"fmt"
 	"go/token"
+	"go/types"
 	"strings"
 
 	"golang.org/x/tools/go/ssa"
@@ -288,6 +289,27 @@ func checkC08Loader(p *Prog, r *Report, ru *Rule, load *ssa.Function) {
 			if ev == ssa.Value(readErr) {
 				ru.OK(c, posOf(ret), "returns the file read's own error")
 				return
+			}
+			/* A structured error of the module: judged by what its Unwrap
+			hands back, as %w would be. */
+			if al, isAl := stripConv(ev, false).(*ssa.Alloc); isAl {
+				if srcs, ok := structuredErrorSources(al, 0); ok {
+					for _, src := range srcs {
+						switch {
+						case src.Call == readCall && nil != readCall:
+							ru.OK(c, posOf(ret), "carries the error of reading the cache file itself (%s)", src.Name)
+						case "fresh" == src.Name:
+							ru.OK(c, posOf(ret), "a structured error which carries a fresh error or none")
+						case cannotBeNotExist[src.Name]:
+							ru.OK(c, posOf(ret), "carries an error of %s, which is never fs.ErrNotExist", src.Name)
+						case nil == src.Call && "?" != src.Name:
+							ru.OK(c, posOf(ret), "carries the module's own sentinel %s", src.Name)
+						default:
+							ru.Bad(c, posOf(ret), "carries (Unwrap) an error of %s: if that is fs.ErrNotExist (e.g. a member missing from a torn archive) the caller takes the damaged cache for a missing one, regenerates and overwrites it", src.Name)
+						}
+					}
+					return
+				}
 			}
 			ru.Unproven(c, posOf(ret), "error value not understood (%s)", describeValue(ev))
 			return
@@ -622,8 +644,110 @@ func errorSources(e ssa.Value, depth int) []errSource {
 		if x.IsNil() {
 			return nil
 		}
+	case *ssa.UnOp:
+		/* var ErrX = errors.New(…) of the module, never reassigned: an
+		error of its own, which wraps nothing. */
+		if g, ok := x.X.(*ssa.Global); ok && token.MUL == x.Op && nil != theProg && theProg.sentinelError(g) {
+			if once := theProg.globalOnce(x); nil != once {
+				if c, isCall := stripConv(once, false).(*ssa.Call); isCall && "errors.New" == calleeName(c.Common()) {
+					return []errSource{{Name: "fresh"}}
+				}
+			}
+		}
+	case *ssa.Alloc:
+		/* &T{Op: …, Err: err}: a structured error of the module.  What its
+		Unwrap hands back is the cause it carries (what %w would have
+		wrapped); without an Unwrap it is an error of its own. */
+		if srcs, ok := structuredErrorSources(x, depth); ok {
+			return srcs
+		}
 	}
 	return []errSource{{Name: "?"}}
+}
+
+// structuredErrorSources: al is a freshly made value of a module struct type
+// which is an error.  Its sources are those of the values stored into the
+// field(s) its Unwrap method returns (a sentinel returned as it is counts as
+// itself), or "fresh" when it has no Unwrap.
+func structuredErrorSources(al *ssa.Alloc, depth int) ([]errSource, bool) {
+	if nil == theProg {
+		return nil, false
+	}
+	n := namedOf(al.Type())
+	if nil == n || nil == n.Obj().Pkg() || !strings.HasPrefix(n.Obj().Pkg().Path(), ModPath) {
+		return nil, false
+	}
+	if _, isSt := n.Underlying().(*types.Struct); !isSt {
+		return nil, false
+	}
+	ms := theProg.SSA.MethodSets.MethodSet(types.NewPointer(n))
+	if nil == ms.Lookup(nil, "Error") {
+		return nil, false
+	}
+	sel := ms.Lookup(n.Obj().Pkg(), "Unwrap")
+	if nil == sel {
+		sel = ms.Lookup(nil, "Unwrap")
+	}
+	if nil == sel {
+		return []errSource{{Name: "fresh"}}, true
+	}
+	un := theProg.SSA.MethodValue(sel)
+	if nil == un || nil == un.Blocks {
+		return nil, false
+	}
+	/* A value-receiver method is reached through a wrapper. */
+	if "" != un.Synthetic {
+		if vsel := theProg.SSA.MethodSets.MethodSet(n).Lookup(n.Obj().Pkg(), "Unwrap"); nil != vsel {
+			if vm := theProg.SSA.MethodValue(vsel); nil != vm && nil != vm.Blocks {
+				un = vm
+			}
+		}
+	}
+	var out []errSource
+	okAll := true
+	eachInstr(un, func(i ssa.Instruction) {
+		ret, ok := i.(*ssa.Return)
+		if !ok || 1 != len(ret.Results) {
+			return
+		}
+		rv := stripConv(ret.Results[0], false)
+		if fv, _ := loadedField(rv); nil != fv {
+			/* The stores into that field of this value. */
+			found := false
+			for _, ref := range *al.Referrers() {
+				fa, isFA := ref.(*ssa.FieldAddr)
+				if !isFA || derefStruct(fa.X.Type()).Field(fa.Field) != fv {
+					continue
+				}
+				for _, r2 := range *fa.Referrers() {
+					if st, isSt := r2.(*ssa.Store); isSt && st.Addr == ssa.Value(fa) {
+						found = true
+						out = append(out, errorSources(st.Val, depth+1)...)
+					}
+				}
+			}
+			if !found {
+				/* Left nil: nothing is wrapped. */
+				out = append(out, errSource{Name: "fresh"})
+			}
+			return
+		}
+		if u, isLd := rv.(*ssa.UnOp); isLd && token.MUL == u.Op {
+			if g, isG := u.X.(*ssa.Global); isG {
+				out = append(out, errSource{Name: g.Name()})
+				return
+			}
+		}
+		if c, isC := rv.(*ssa.Const); isC && c.IsNil() {
+			out = append(out, errSource{Name: "fresh"})
+			return
+		}
+		okAll = false
+	})
+	if !okAll || 0 == len(out) {
+		return nil, false
+	}
+	return out, true
 }
 
 // cacheWriters: calls which create or change files.
